@@ -4,11 +4,11 @@
 package rhpx
 
 import (
-	"os"
 	"context"
 	"errors"
 	"fmt"
 	"net"
+	"os"
 	"sort"
 	"sync"
 	"time"
@@ -20,6 +20,7 @@ import (
 	rhp "go.sia.tech/coreutils/rhp/v4"
 	"go.sia.tech/coreutils/testutil"
 	"go.uber.org/zap"
+	"verif/internal/memnet"
 )
 
 // Call is one recorded call on the Contractor.
@@ -289,6 +290,9 @@ type Transport struct {
 	pending []*trackedConn
 	Wrap    Interposer
 	DialErr error
+	// Buffered selects a buffered in-memory stream (writes do not wait for the reader, like a socket) instead
+	// of the synchronous net.Pipe.
+	Buffered bool
 }
 
 func (t *Transport) DialStream(ctx context.Context) (net.Conn, error) {
@@ -296,6 +300,9 @@ func (t *Transport) DialStream(ctx context.Context) (net.Conn, error) {
 		return nil, t.DialErr
 	}
 	c, s := net.Pipe()
+	if t.Buffered {
+		c, s = memnet.Pipe()
+	}
 	tc := &trackedConn{Conn: s, done: make(chan struct{})}
 	t.mu.Lock()
 	t.pending = append(t.pending, tc)
@@ -340,8 +347,8 @@ func (r settingsReporter) RHP4Settings() proto4.HostSettings { return r.s }
 // ChainStub is a minimal rhp.ChainManager at a fixed state (no pool).
 type ChainStub struct{ CS consensus.State }
 
-func (c ChainStub) Tip() types.ChainIndex      { return c.CS.Index }
-func (c ChainStub) TipState() consensus.State  { return c.CS }
+func (c ChainStub) Tip() types.ChainIndex          { return c.CS.Index }
+func (c ChainStub) TipState() consensus.State      { return c.CS }
 func (c ChainStub) RecommendedFee() types.Currency { return types.NewCurrency64(1) }
 func (c ChainStub) V2TransactionSet(b types.ChainIndex, t types.V2Transaction) (types.ChainIndex, []types.V2Transaction, error) {
 	return b, []types.V2Transaction{t}, nil
